@@ -788,6 +788,8 @@ def part_cfg(ctx, n):
         #  dupline      : the new lines follow the first, EARLIER line with the same stripped text as the last list line;
         #  no final nl  : the last list line was the unterminated last line and the first requirement is glued to it.
         inline_seen = inline and not m["dry"] and i not in not_inline_pred
+        if inline and m["dry"] and m["res"]["names"] == [] and len(ref_c) >= 2 and i not in set(bad["cfg_model_ok"]):
+            inline_seen = True    # dry run: nothing on disk to compare; the class predicts a store without names, and the model agrees
         dup_seen = (i in dup) and not m["dry"] and i not in not_dup_pred
         glued_seen = (info["kref"] is not None and info["kref"] == len(lines) - 1 and not m["dry"]
                       and after.startswith(text) and len(after) > len(text) and after[len(text)] not in "\r\n")
